@@ -129,8 +129,8 @@ def fault_trace(mode, seed, faults, baseline, skip_close=False, wcap_seed=None, 
         last = max([i for i, e in enumerate(evs) if e['ev'] == 'conn'] or [0])
         # only the connection made by the recovery is judged: on the broken one a write that failed in the middle of a packet
         # is legitimately followed by further packets (e.g. the CLSE of pull's finally)
-        if any(k_ == 'cancel' for k_ in faults.values()) and all(c_ == 'bulk_read' for (_, c_, _) in fault.fired):
-            return tr, fault, evs           # a cancellation while waiting for the device does not break the connection: everything on the wire is judged
+        if any(k_ == 'cancel' for k_ in faults.values()) and (all(c_ == 'bulk_read' for (_, c_, _) in fault.fired) or not any(e_['ev'] == 'tx_garbage' for e_ in evs[:last + 1])):
+            return tr, fault, evs           # a cancellation that left no message half-sent does not break the connection: everything on the wire is judged
         # (a cancellation that arrives during a write may leave a message half-sent, like any failed write: only the recovery is judged)
         return tr, fault, evs[last:]
     return tr, fault
@@ -229,16 +229,19 @@ def body(ctx):
             # other exception classes a transport can raise: a broken pipe on writes, a plain OSError, the USB transport's own errors
             others = (('epipe',) if calls[k][0] == 'bulk_write' else ()) + (('oserr', 'usb')[k % 2],)
             for kind in ('timeout', 'reset', 'eof') + (('cancel',) if mode == 'async' else ()) + others:
-                # recovery with and without close(); with and without short writes before the fault; to a peer with the same or a smaller maxdata
-                variant = (k + len(kind)) % 4
+                # the fault at call k of the plain scenario (recovery with or without close(), to a peer with the same or a smaller maxdata) ...
+                skip = bool((k + len(kind)) % 2)
                 rmax = 1500 if (k // 4 + len(kind)) % 3 == 0 else None
-                tr, fault, evs = fault_trace(mode, ctx.seed, {k: kind}, base, skip_close=bool(variant & 1), wcap_seed=(ctx.seed + k) if variant & 2 else None, want_events=True,
-                                             recovery_maxdata=rmax)
-                traces.append(tr)
-                env_traces.append(evs)
-                meta.append(dict(kind='fault', mode=mode, at={str(k): kind}, call=calls[k][0] if k < len(calls) else '?', recovery_without_close=bool(variant & 1), short_writes=bool(variant & 2),
-                                 recovery_maxdata=rmax))
-                env_meta.append(meta[-1])
+                runs_ = [(skip, None, rmax)]
+                if (k + len(kind)) % 3 == 0:
+                    runs_.append((not skip, ctx.seed + k, None))          # ... and, for a third of them, at call k of the same scenario under short writes
+                for (skip_, wseed_, rmax_) in runs_:
+                    tr, fault, evs = fault_trace(mode, ctx.seed, {k: kind}, base, skip_close=skip_, wcap_seed=wseed_, want_events=True, recovery_maxdata=rmax_)
+                    traces.append(tr)
+                    env_traces.append(evs)
+                    meta.append(dict(kind='fault', mode=mode, at={str(k): kind}, call=(calls[k][0] if k < len(calls) else '?') if wseed_ is None else 'call %d under short writes' % k,
+                                     recovery_without_close=skip_, short_writes=wseed_ is not None, recovery_maxdata=rmax_))
+                    env_meta.append(meta[-1])
         # a fault exactly at the close() that follows the healthy scenario, and at the connect() after it
         for extra in (0, 1, 2, 3, 4, 5):
             for kind in ('timeout', 'reset') + (('cancel',) if mode == 'async' else ()):
